@@ -1,7 +1,7 @@
 (* No spurious rejection at the fixed-width leaves: a value that the documented mapping of a Boolean / integer / float / temporal-integer
    column contains - through any Option / newtype layers, a null into a nullable column included - is accepted by the builder.
    (The converse of C01's refinement at these leaves; variable-width and nested builders additionally need room in their offset type.) *)
-From Verif Require Import Builder Builder_proofs Refine_proofs.
+From Verif Require Import Builder Builder_proofs Refine_proofs FloatOfInt_proofs.
 Require Import Lia.
 Local Open Scope nat_scope.
 
@@ -28,6 +28,11 @@ Proof.
   all: try (eexists; reflexivity).
   all: try (match goal with |- exists z, (if ?c then _ else _) = _ => let Ec := fresh "Ec" in destruct c eqn:Ec; [eexists; reflexivity|exfalso] end).
   all: try (unfold in_int in *; cbn in *; lia).
+  all: match goal with
+       | Ec : in_int U32 (f32_of_int ?z) = false |- _ => pose proof (f32_of_int_range z) as R
+       | Ec : in_int U64 (f64_of_int ?z) = false |- _ => pose proof (f64_of_int_range z) as R
+       end.
+  all: unfold in_int in Hw, Ec; cbn [int_min int_max] in Hw, Ec; change (2 ^ 64)%Z with 18446744073709551616%Z in R; change (2 ^ 32)%Z with 4294967296%Z in R; lia.
 Qed.
 
 Definition fixed_width (b : Builder) : Prop :=
